@@ -402,6 +402,44 @@ def detect_isa_unit(res):
     return res
 
 
+def full_analysis_unit(res):
+    """P: Frontend.full_analysis (real code, all parts abstract and remembering their arguments): the report contains exactly
+    once the header warnings built from (arch_warning, length_warning), the combined view of the SAME kernel with the critical path
+    and the loop-carried dependencies of the SAME analysis object and the ignore-unknown option, the footer built from lcd_warning,
+    and the LCD list of that analysis' dependencies - nothing is computed from another kernel, option or flag."""
+    ex = Engine([REPO + "/" + FE])
+    ex.no_init |= {"Frontend"}
+    aw, lw, cw, ign = z3.Bools("arch_warning length_warning lcd_warning ignore_unknown")
+
+    def run():
+        cp, deps, kernel = [SObj("InstructionForm", tag="cp")], {"1": "dep"}, [SObj("InstructionForm", tag=0)]
+        for nm in ("_header_report", "_user_warnings_header", "_symbol_map", "combined_view", "_user_warnings_footer", "loopcarried_dependencies"):
+            ex.abstract[nm] = (lambda nm: lambda ex_, so, a, kw: _Cell(nm, a, kw))(nm)
+        ex.abstract["get_critical_path"] = lambda ex_, so, a, kw: cp
+        ex.abstract["get_loopcarried_dependencies"] = lambda ex_, so, a, kw: deps
+        ex.extra.update(cp=cp, deps=deps, kernel=kernel)
+        return ex.call_method("Frontend", "full_analysis", SObj("Frontend"), [kernel, SObj("KernelDG")],
+                              kw=dict(ignore_unknown=SBool(ign), arch_warning=SBool(aw), length_warning=SBool(lw), lcd_warning=SBool(cw)))
+
+    paths = ex.explore(run, [])
+
+    def post(v, p):
+        parts = [x for x in getattr(v, "parts", []) if isinstance(x, _Cell)]
+        by = lambda nm: [x for x in parts if x.name == nm]
+        one = {nm: by(nm) for nm in ("_user_warnings_header", "combined_view", "_user_warnings_footer", "loopcarried_dependencies")}
+        if any(len(x) != 1 for x in one.values()):
+            return False
+        arg = lambda c, i, name: c.a[i] if len(c.a) > i else c.kw.get(name)
+        h, cv, f, ll = (one[k][0] for k in ("_user_warnings_header", "combined_view", "_user_warnings_footer", "loopcarried_dependencies"))
+        if arg(cv, 0, "kernel") is not p.extra["kernel"] or arg(cv, 1, "cp_kernel") is not p.extra["cp"] or arg(cv, 2, "dep_dict") is not p.extra["deps"] or arg(ll, 0, "dep_dict") is not p.extra["deps"]:
+            return False
+        bt = lambda x: bool_term(False if x is None else x)
+        return z3.And(bt(arg(h, 0, "arch_warning")) == aw, bt(arg(h, 1, "length_warning")) == lw, bt(arg(f, 0, "lcd_warning")) == cw, bt(arg(cv, 3, "ignore_unknown")) == ign)
+
+    res.add_paths(paths, post, kind="full_analysis/assembly")
+    return res
+
+
 def lcd_list_unit(res):
     """Pb: Frontend.loopcarried_dependencies (the LCD list of the text report) for 0-3 loop-carried dependencies with symbolic
     latencies: exactly one row per dependency (in any order), each showing the first member's line number, the
@@ -460,6 +498,7 @@ def units(tier):
         Unit("C13/combined_view(rows, totals, missing-data branch; cell helpers abstract)", combined_view_unit, "Pb", [(FE, "Frontend.combined_view"), (FE, "Frontend._is_comment")], decisive=False),
         Unit("C13/_get_port_pressure(cell i shows pressure i or is blank)", pressure_cells_unit, "Pb", [(FE, "Frontend._get_port_pressure")], decisive=False),
         Unit("C13/detect_ISA(majority of register-name matches)", detect_isa_unit, "P", [("osaca/parser/base_parser.py", "BaseParser.detect_ISA")], decisive=False),
+        Unit("C13/full_analysis(assembly of the text report)", full_analysis_unit, "P", [(FE, "Frontend.full_analysis")], decisive=False),
         Unit("C13/loopcarried_dependencies(LCD list rows)", lcd_list_unit, "Pb", [(FE, "Frontend.loopcarried_dependencies")], decisive=False),
         Unit("C13/inspect/warning-flags-and-report-wiring", _inspect_unit(), "P", [(OS, "inspect")], decisive=False),
         bounded_unit("C13/report-vs-dict", "c13_report", [(FE, "Frontend.combined_view"), (FE, "Frontend.full_analysis_dict"), (FE, "Frontend.loopcarried_dependencies"),
